@@ -230,6 +230,8 @@ def is_arr2(v):
 
 
 def is_concrete(v):
+    if isinstance(v, Opaque):
+        return False
     if is_z3(v) or isinstance(v, (ObjV, SymList, MapSeq, LArr, LArr2, HeapArr1, HeapArr2, HeapCol, GenV, ForallV, ExistsV)):
         return False
     if isinstance(v, (list, tuple)):
